@@ -626,11 +626,11 @@ func (e *Env) evalCall(x *ast.CallExpr) TV {
 			n := e.clone()
 			n.names[v] = intTV(bv)
 			n.inQuant++
-			e.vc.inBinder++
+			e.vc.enterBinder()
 			body := n.evalBlock(fl.Body.List)
-			e.vc.inBinder--
+			tf := e.vc.exitBinder()
 			bt := body.V.(Scalar).T
-			rng := and(le(lo, bv), lt(bv, hi))
+			rng := and(append([]string{le(lo, bv), lt(bv, hi)}, tf...)...)
 			if id.Name == "forallIn" {
 				return boolTV(forall([][2]string{{bv, "Int"}}, implies(rng, bt)))
 			}
@@ -665,9 +665,9 @@ func (e *Env) evalCall(x *ast.CallExpr) TV {
 					}
 				}
 			}
-			e.vc.inBinder++
+			e.vc.enterBinder()
 			body := n.evalBlock(fl.Body.List).V.(Scalar).T
-			e.vc.inBinder--
+			guard = and(append([]string{guard}, e.vc.exitBinder()...)...)
 			if id.Name == "forall" {
 				return boolTV(forall(vars, implies(guard, body)))
 			}
@@ -688,6 +688,7 @@ func (e *Env) evalCall(x *ast.CallExpr) TV {
 			if t == nil {
 				e.fail(x, "unknown type %q", tn)
 			}
+			e.vc.declIface()
 			return boolTV(eq(app("itag", a.term()), e.vc.typeTag(t)))
 		case "fresh":
 			a := e.eval(x.Args[0])
@@ -891,6 +892,7 @@ func (e *Env) evalBlock(stmts []ast.Stmt) TV {
 			e.vc.declIface()
 			n := e.clone()
 			n.names[as.Lhs[0].(*ast.Ident).Name] = TV{e.vc.unbox(base.term(), t), t}
+			e.vc.declIface()
 			n.names[as.Lhs[1].(*ast.Ident).Name] = boolTV(eq(app("itag", base.term()), e.vc.typeTag(t)))
 			ns := *s
 			ns.Init = nil
